@@ -26,7 +26,7 @@ import (
 
 const (
 	memLimitMB  = 1024
-	itemTimeout = 20 * time.Second
+	itemTimeout = 60 * time.Second
 )
 
 var magics = []string{"GGUF", "FUGG"}
@@ -186,10 +186,13 @@ func work(item string, sub *evid.Run) {
 	if c.Differs && len(c.Data) >= 24 {
 		sub.Distinct("nontrivial", string(c.Data))
 	}
-	if sub.WantSample() {
-		sub.Sample(map[string]any{"item": item, "case": c.Desc})
-	} else {
-		sub.Sample(nil)
+	if evid.Hash(item)%1500 == 0 {
+		// a spread of the enumerated cases rather than the first few
+		smp := map[string]any{"item": item, "case": c.Desc}
+		if len(c.Data) <= 160 {
+			smp["hex"] = hex.EncodeToString(c.Data)
+		}
+		sub.Sample(smp)
 	}
 	replay := map[string]any{"item": item, "case": c.Desc, "hex": hexOf(c.Data)}
 	report := func(f *finding) {
@@ -410,7 +413,7 @@ func itemDesc(item string) string {
 type coord struct {
 	r         *evid.Run
 	mu        sync.Mutex
-	confirmed map[string]bool // crash signatures already confirmed by re-execution
+	confirmed map[string]bool   // crash signatures already confirmed by re-execution
 	crashed   map[string]string // item rest -> sig
 }
 
@@ -655,20 +658,20 @@ func main() {
 		fmt.Fprintf(os.Stderr, "c10 [%5.1fs] "+f+"\n", append([]any{time.Since(t0).Seconds()}, a...)...)
 	}
 
-	r.Rule("Seeds: valid GGUF files written by the real WriteGGUF and by a harness encoder (v1, v2, v3, big-endian, every scalar and array element type, >1024-element arrays, two models in one file). " +
-		"A harness-side parser maps every length, count, type tag, dimension count, dimension, tensor kind, offset and well-known numeric value (general.alignment, general.file_type, *.block_count) of each seed. " +
-		"Enumerated exhaustively: (1) every field x every value of its boundary alphabet; (2) thorough: every pair of fields x alphabet x alphabet on the seeds marked pairs, restricted to pairs in which neither single mutation violates by itself (a pair containing a failing single is not a minimal counterexample); " +
-		"(3) every truncation length 0..len-1 of every seed; (4) every byte string of length <=3 after each of the two magics; (5) well-known keys re-encoded with a value of every other type; (6) the seeds themselves. " +
-		"Every input goes through ggml.Decode(r,0) and ggml.Decode(r,-1) with panic capture and TotalAlloc accounting; every input whose decoding raised no violation then goes through llm.LoadModel and the real gin router in-process: POST /api/blobs, POST /api/create (stream, *.gguf name) and (non-stream, no extension), POST /api/show (plain, verbose), GET /api/tags, GET /api/version as liveness probe. " +
-		"Inputs whose decoding violates would take the process down in the create goroutine; their HTTP path is run for the 2 smallest inputs per decode signature. Magic suffixes of length 2 and 3 are decode-only. " +
+	r.Rule("Seeds: valid GGUF files written by the real WriteGGUF and by a harness encoder (v1, v2, v3, big-endian, every scalar and array element type, >1024-element arrays, a single-tensor file, two models in one file). " +
+		"A harness-side parser maps every length, count, type tag, dimension count, dimension, tensor kind, offset and well-known numeric value (general.alignment, general.file_type, *.block_count) of each seed (string arrays of more than 8 elements: the lengths of the first 4 and last 2 elements). " +
+		"Enumerated exhaustively: (1) every field x every value of its boundary alphabet; (2) thorough tier: every pair of fields x alphabet x alphabet on the seeds marked pairs, restricted to pairs in which neither single mutation violates by itself (a pair containing a failing single is not a minimal counterexample; the number skipped is reported); " +
+		"(3) every truncation length 0..len-1 of every seed; (4) every byte string of length <=2 (quick) / <=3 (thorough) after each of the two magics; (5) well-known keys re-encoded with a value of every other type; (6) the seeds themselves. " +
+		"Every input goes through ggml.Decode(r,0) and ggml.Decode(r,-1) with panic capture and TotalAlloc accounting; every input whose decoding raised no violation then goes through llm.LoadModel(blob,0/-1) and the real gin router in-process: POST /api/blobs/:digest, POST /api/create (stream, *.gguf name) and (non-stream, no extension), POST /api/show (plain, verbose), GET /api/tags, GET /api/version as liveness probe. " +
+		"Inputs whose decoding violates would take the process down in the create goroutine; their HTTP path is run for the 2 smallest inputs per decode signature (stage 2). Magic suffixes of length 2 and 3 are decode-only. " +
 		"Non-trivial = distinct (by content) input that differs from its seed and contains a complete header (>=24 bytes), so that the decoder enters the key/value loop.")
 	r.Assume(
-		"allocation bound per Decode call: TotalAlloc delta <= 1 MiB + 256*len(input), measured with GOMAXPROCS=1 in the worker; legitimate decoding needs <= ~80 bytes per input byte",
-		"workers run under RLIMIT_AS = 1 GiB; a worker killed by 'fatal error: out of memory' while decoding a file of a few KiB is an allocation out of proportion",
-		fmt.Sprintf("non-termination is observed as no answer within %v for an input whose normal processing takes milliseconds; confirmed by re-execution", itemTimeout),
-		"an error status (4xx/5xx) needs a JSON body with an error member; a 5xx with an empty body written by gin's recovery middleware is accepted as an error response (weaker reading) and only counted under http_observations",
-		"a streamed create answers 200 and reports errors as NDJSON lines; only well-formedness of every line is required",
+		"allocation bound per Decode call: TotalAlloc delta <= 1 MiB + 256*len(input), measured with one P in the worker; legitimate decoding needs <= ~80 bytes per input byte; a measurement over the bound must repeat in 5 re-executions",
+		"workers run under RLIMIT_AS = 1 GiB (about 290 MiB of Go heap); a worker killed by 'fatal error: out of memory' on a single request while handling a file of a few KiB is an allocation out of proportion; every such death is bucketed from a re-execution in a fresh process when the report is incomplete",
+		fmt.Sprintf("non-termination is observed as no answer within %v, or as heap exhaustion by accumulation, for an input whose normal processing takes milliseconds; always confirmed by re-execution in a fresh process", itemTimeout),
+		"HTTP: any 2xx or 4xx/5xx answer counts as 'a response'/'an error response' (the property does not prescribe bodies); bodies that are not JSON, or error statuses without a JSON error member, or empty 5xx bodies from gin's recovery middleware are counted under http_observations, not as violations",
 		"the v1 layout (32-bit counts, NUL-terminated strings behind a 64-bit length) is the one ollama's decoder implements",
+		"not covered: accessors that are not reached by create/show (KV.Strings/Uints/Floats, GGML.GraphSize), /api/show of a file for which create fails (a manifest can only be produced by create or pull), safetensors conversion",
 		"trusted: the harness encoder/field map, evid worker fan-out, Go runtime crash reports used for bucketing")
 
 	// ---- stage 1: seeds, single mutations, key re-typing, truncations, magic suffixes ----
@@ -817,22 +820,25 @@ func main() {
 		all := c.readViolations(order)
 		by := map[string][]string{}
 		var sigs []string
+		cnt := map[string]int{}
+		dup := map[string]bool{}
 		for _, v := range all {
+			if dup[v.Sig+"\x00"+v.Rest] {
+				continue // the same input fails in both Decode calls / again in stage 2
+			}
+			dup[v.Sig+"\x00"+v.Rest] = true
+			cnt[v.Sig]++
 			if _, ok := by[v.Sig]; !ok {
 				sigs = append(sigs, v.Sig)
 			}
-			if len(by[v.Sig]) < 12 {
+			if len(by[v.Sig]) < 8 {
 				by[v.Sig] = append(by[v.Sig], itemDesc("B|"+v.Rest))
 			}
 		}
 		sort.Strings(sigs)
 		var sb strings.Builder
-		cnt := map[string]int{}
-		for _, v := range all {
-			cnt[v.Sig]++
-		}
 		for _, s := range sigs {
-			fmt.Fprintf(&sb, "## %s (%d inputs)\n", s, cnt[s])
+			fmt.Fprintf(&sb, "## %s (%d distinct inputs)\n", s, cnt[s])
 			for _, d := range by[s] {
 				fmt.Fprintf(&sb, "- %s\n", strings.ReplaceAll(d, "\n", "\n  "))
 			}
